@@ -95,8 +95,8 @@ def exec_norm(line):
 
 
 def explain_pair(axis, ca, cb, ta, tb, ex, src, fnd, stats):
-    fa, la, _, flagged_a, edit_a = c04.expected(ca)
-    fb, lb, _, flagged_b, edit_b = c04.expected(cb)
+    fa, la, _, flagged_a, edit_a = c04.expected(ca, ex.snap)
+    fb, lb, _, flagged_b, edit_b = c04.expected(cb, ex.snap)
     where = '%s <-> %s (%s)' % (cfgx.tag(ca), cfgx.tag(cb), axis)
 
     def viol(kind, path, what):
@@ -184,7 +184,7 @@ def explain_pair(axis, ca, cb, ta, tb, ex, src, fnd, stats):
 def line_pair_ok(axis, x, y, k, base, flagged_a, flagged_b, gset):
     if x == y:
         return True
-    hx = scan.HDR.match(re.sub(r'^(\s*)#+\s*', r'\1', x)); hy = scan.HDR.match(re.sub(r'^(\s*)#+\s*', r'\1', y))
+    hx = scan.HDR.match(x); hy = scan.HDR.match(y)          # (a comment that spells a header is a comment)
     if axis == 'mode':
         return bool(hx and hy) and re.sub(r'flags\s*=\s*\([^)]*\)', '', x).split() == re.sub(r'flags\s*=\s*\([^)]*\)', '', y).split()
     if axis == 'abi':
